@@ -2,10 +2,15 @@ from typing import List, Type
 
 from sqlalchemy.exc import ArgumentError
 from sqlalchemy.inspection import inspect
-from sqlalchemy.orm.attributes import InstrumentedAttribute
+from sqlalchemy.orm.attributes import InstrumentedAttribute, QueryableAttribute
 from sqlalchemy.orm.decl_api import DeclarativeMeta
 from sqlalchemy.orm.relationships import RelationshipProperty
-from sqlalchemy.sql.expression import BinaryExpression, ClauseElement, ColumnClause
+from sqlalchemy.sql.expression import (
+    BinaryExpression,
+    ClauseElement,
+    ColumnClause,
+    ColumnElement,
+)
 
 from odata_query import ast, exceptions as ex, utils, visitor
 
@@ -25,12 +30,25 @@ class AstToSqlAlchemyOrmVisitor(common._CommonVisitors, visitor.NodeVisitor):
         self.root_model = root_model
         self.join_relationships: List[InstrumentedAttribute] = []
 
+    @staticmethod
+    def _field_of(model: Type[DeclarativeMeta], name: str) -> ColumnClause:
+        """
+        The mapped attribute ``name`` of ``model``. Anything else a class happens
+        to have under that name (``registry``, ``metadata``, ``__tablename__``,
+        methods, ...) is not a field a filter may refer to.
+        :meta private:
+        """
+        try:
+            field = getattr(model, name)
+        except AttributeError:
+            raise ex.InvalidFieldException(name)
+        if not isinstance(field, (QueryableAttribute, ColumnElement)):
+            raise ex.InvalidFieldException(name)
+        return field
+
     def visit_Identifier(self, node: ast.Identifier) -> ColumnClause:
         ":meta private:"
-        try:
-            return getattr(self.root_model, node.name)
-        except AttributeError:
-            raise ex.InvalidFieldException(node.name)
+        return self._field_of(self.root_model, node.name)
 
     def visit_Attribute(self, node: ast.Attribute) -> ColumnClause:
         ":meta private:"
@@ -45,10 +63,7 @@ class AstToSqlAlchemyOrmVisitor(common._CommonVisitors, visitor.NodeVisitor):
 
         # We'd like to reference the column on the related class:
         owner_cls = prop_inspect.entity.class_
-        try:
-            return getattr(owner_cls, node.attr)
-        except AttributeError:
-            raise ex.InvalidFieldException(node.attr)
+        return self._field_of(owner_cls, node.attr)
 
     def visit_Compare(self, node: ast.Compare) -> BinaryExpression:
         ":meta private:"
